@@ -468,7 +468,7 @@ func (c *Ctx) c18Rich(n int) {
 
 func runC18(c *Ctx) error {
 	c.Rep.Rule = "eval: programs of 3..16 top-level statements of the model's kinds (:= / var definitions, = and += assignments, println, expression statements, functions incl. re-definition with late-bound globals, top-level for loops and ifs; 3% with a use before definition) evaluated whole, one statement per Eval and in a random cutting (chunks of 1..4), each compared with the model on the same cutting; whole-vs-cut: progen top-level programs (type, method and function declarations, helpers, variables of int/bool/string/slice/map/struct types, if/for/switch/range, multi-value calls, closures-free calls, expression statements, optional import) evaluated whole and in three cuttings; distinct = distinct program; non-trivial = more than 5 / 10 statements"
-	nt, nr := 150, 80
+	nt, nr := 500, 300
 	if c.Thorough() {
 		nt, nr = 40000, 15000
 	}
